@@ -5,6 +5,8 @@ import NitroVerif.Lemmas.SkipConcScanInv
 
   * `MonoF h positions stamps`: each position and the next one satisfy `Rel` (strictly larger key, or the same
     key with the earlier node marked and the later node published after the earlier one was returned);
+  * (an explicit refresh that lands on the node that is already the last position appends nothing and renews the stamp
+    of that position, see `Ghost.onStep`; one that lands on another node appends it, and `Rel` holds for it)
   * `Uniq h b L` for the last position `b` returned in a state with `L` published nodes: every OTHER node among
     the first `L` with the key of `b` is marked.  It holds when `b` is returned because `b` is then on the level-0
     chain from the head, as is every unmarked node, and the chain is strictly sorted; it is stable because marks
@@ -236,14 +238,53 @@ theorem rel_of_search_end {h : Heap} (H : HInv h) {b L k c : Nat} (r : RelK h b 
       · omega
     · exact .inl (by rw [r1]; exact l)
 
+/-- the end of the findPath of an EXPLICIT refresh (searched item = key of the last position `b`, which need not be
+    marked): findPath stops at `b` itself, or at a node related to `b` by `Rel` -/
+theorem rel_or_same_of_search_end {h : Heap} (H : HInv h) (R : ReachInv h) {b L k c : Nat} (hb : b < h.length)
+    (hkb : keyOf h b = .fin k) (u : Uniq h b L) (hge : ¬ Key.lt (keyOf h c) (.fin k))
+    (hlive : c = 1 ∨ unmarked0 h c) : Rel h b L c ∨ c = b := by
+  by_cases hcb : c = b
+  · exact .inr hcb
+  · refine .inl ?_
+    rcases Key.not_lt_cases hge with e | l
+    · have hu : unmarked0 h c := by
+        rcases hlive with h1 | hu
+        · rw [h1, H.tailKey] at e; simp at e
+        · exact hu
+      have hb1 : b ≠ 1 := by
+        intro e1; rw [e1, H.tailKey] at hkb; simp at hkb
+      obtain ⟨⟨p, m⟩, hw⟩ := Option.isSome_iff_exists.mp (H.word0 b hb hb1)
+      have hmk : marked0 h b := by
+        cases m with
+        | true => exact ⟨p, hw⟩
+        | false =>
+          exfalso
+          exact uniq_of_reach H R (R.2 c hu) (b + 1) b (by omega) (fun e2 => hcb e2.symm) (by rw [hkb, e]) ⟨p, hw⟩
+      refine .inr ⟨by rw [hkb, e], hmk, ?_⟩
+      by_cases hlt : c < L
+      · exact absurd hu (u c hlt hcb (by rw [e, hkb]))
+      · omega
+    · exact .inl (by rw [hkb]; exact l)
+
+theorem MonoF_last_stamp {h : Heap} (b L L' : Nat) : ∀ (ps0 ss0 : List Nat),
+    ps0.length = ss0.length → MonoF h (ps0 ++ [b]) (ss0 ++ [L]) → MonoF h (ps0 ++ [b]) (ss0 ++ [L'])
+  | [], [], _, _ => by simp [MonoF]
+  | [], _ :: _, hl, _ => by simp at hl
+  | _ :: _, [], hl, _ => by simp at hl
+  | p :: ps, s :: ss, hl, m => by
+    simp only [List.cons_append, MonoF] at m ⊢
+    exact ⟨m.1, MonoF_last_stamp b L L' ps ss (by simpa using hl) m.2⟩
+
 def MonoInv (h : Heap) (g : Ghost) (it : Nat) (th : Thread) : Prop :=
   g.positions.length = g.stamps.length ∧ (∀ c ∈ g.positions, c < h.length) ∧ MonoF h g.positions g.stamps ∧
   ((g.positions = [] ∧ ∃ fp, searchOf th.pc = some fp ∧ fp.cont = .iterSeek it) ∨
    (∃ ps0 ss0 b L, g.positions = ps0 ++ [b] ∧ g.stamps = ss0 ++ [L] ∧ L ≤ h.length ∧ Uniq h b L ∧
       (((pcIter th.pc ≠ some it ∨ th.pc = .iterNext it ∨ ∃ n, th.pc = .iterHelp it n) ∧ (th.iter it).curr = b) ∨
-       (th.pc = .iterRefresh it ∧ (th.iter it).curr < h.length ∧ Rel h b L (th.iter it).curr) ∨
+       (th.pc = .iterRefresh it ∧ (th.iter it).curr < h.length ∧
+          (Rel h b L (th.iter it).curr ∨ (g.refreshing = true ∧ (th.iter it).curr = b))) ∨
        (∃ fp, searchOf th.pc = some fp ∧ (fp.cont = .iterNext it ∨ fp.cont = .iterRefresh it) ∧
-          RelK h b fp.item ∧ (fp.cont = .iterNext it → (th.iter it).curr = b)))))
+          (RelK h b fp.item ∨ (g.refreshing = true ∧ keyOf h b = .fin fp.item)) ∧
+          (fp.cont = .iterNext it → (th.iter it).curr = b)))))
 
 theorem mem_snoc_lt {ps0 : List Nat} {b n : Nat} {ps : List Nat} (hp : ps = ps0 ++ [b]) (hb : ∀ c ∈ ps, c < n) :
     b < n := hb b (by rw [hp]; simp)
@@ -258,8 +299,14 @@ theorem MonoInv.stable {h h' : Heap} {ev : Event} (_H : HInv h) (e : Ext h h') (
     refine .inr ⟨ps0, ss0, b, L, hp, hs, Nat.le_trans hL e.len, hu.ext e hL hbl, ?_⟩
     rcases ph with ph | ⟨h1, hc, h2⟩ | ⟨fp, h1, h2, h3, h4⟩
     · exact .inl ph
-    · exact .inr (.inl ⟨h1, Nat.lt_of_lt_of_le hc e.len, h2.ext e hbl hc⟩)
-    · exact .inr (.inr ⟨fp, h1, h2, h3.ext e hbl, h4⟩)
+    · refine .inr (.inl ⟨h1, Nat.lt_of_lt_of_le hc e.len, ?_⟩)
+      rcases h2 with h2 | h2
+      · exact .inl (h2.ext e hbl hc)
+      · exact .inr h2
+    · refine .inr (.inr ⟨fp, h1, h2, ?_, h4⟩)
+      rcases h3 with h3 | ⟨h3, h5⟩
+      · exact .inl (h3.ext e hbl)
+      · exact .inr ⟨h3, by rw [e.key b hbl]; exact h5⟩
 
 /-- a call of the scan arrives at a new cursor related to the last position: it returns (the position is appended)
     or parks before the automatic refresh -/
@@ -269,27 +316,38 @@ theorem MonoInv.arrive {g : Ghost} {it : Nat} {th : Thread} {r : Res} {ps0 ss0 :
     (hp : g.positions = ps0 ++ [b]) (hs : g.stamps = ss0 ++ [L]) (hL : L ≤ r.1.heap.length)
     (hu : Uniq r.1.heap b L) (H' : HInv r.1.heap) (R' : ReachInv r.1.heap)
     (hc : (r.2.1.iter it).curr < r.1.heap.length) (hreach : Reach r.1.heap 0 (r.2.1.iter it).curr)
-    (hrel : Rel r.1.heap b L (r.2.1.iter it).curr)
+    (hrel : Rel r.1.heap b L (r.2.1.iter it).curr ∨ (g.refreshing = true ∧ (r.2.1.iter it).curr = b))
     (hpc : r.2.1.pc = .idle ∨ r.2.1.pc = .iterRefresh it) : MonoInv r.1.heap (g.onStep it th r) it r.2.1 := by
   rcases hpc with h | h
-  · have hg : g.onStep it th r =
-        { g with positions := g.positions ++ [(r.2.1.iter it).curr], stamps := g.stamps ++ [r.1.heap.length],
-                 returns := g.returns + 1 } := by
-      unfold Ghost.onStep
-      rw [if_pos ⟨hown, by rw [h]; rfl⟩]
-    rw [hg]
+  · obtain ⟨_, _, _, _, hpos⟩ := g.onStep_ret it th r hown (by rw [h]; rfl)
     have hl0 : ps0.length = ss0.length := by
       rw [hp, hs] at hlen; simpa using hlen
-    refine ⟨by simp [hlen], ?_, ?_, .inr ⟨g.positions, g.stamps, _, _, rfl, rfl, Nat.le_refl _,
-      uniq_of_reach H' R' hreach _, .inl ⟨.inl (by rw [h]; simp [pcIter]), rfl⟩⟩⟩
-    · intro c hcm
-      simp only [List.mem_append, List.mem_singleton] at hcm
-      rcases hcm with hcm | hcm
-      · exact hbd c hcm
-      · rw [hcm]; exact hc
-    · show MonoF r.1.heap (g.positions ++ [(r.2.1.iter it).curr]) (g.stamps ++ [r.1.heap.length])
-      rw [hp, hs] at hm ⊢
-      exact MonoF_snoc b L _ _ hrel ps0 ss0 hl0 hm
+    have hlast : g.positions.getLast? = some b := by rw [hp]; exact List.getLast?_concat
+    unfold MonoInv
+    rcases hpos with ⟨e1, e2, _, hsame⟩ | ⟨e1, e2, hnot⟩
+    · -- an explicit refresh has returned on the last position: nothing is appended, its stamp is renewed
+      rw [hlast] at hsame
+      have hcb : (r.2.1.iter it).curr = b := by simpa using hsame.symm
+      have hs2 : g.stamps.dropLast ++ [r.1.heap.length] = ss0 ++ [r.1.heap.length] := by rw [hs]; simp
+      rw [e1, e2, hs2, hp]
+      rw [hp] at hbd hm
+      rw [hs] at hm
+      refine ⟨by simp [hl0], hbd, MonoF_last_stamp b L _ ps0 ss0 hl0 hm, .inr ⟨ps0, ss0, b, _, rfl, rfl,
+        Nat.le_refl _, uniq_of_reach H' R' (hcb ▸ hreach) _, .inl ⟨.inl (by rw [h]; simp [pcIter]), hcb⟩⟩⟩
+    · have hrel' : Rel r.1.heap b L (r.2.1.iter it).curr := by
+        rcases hrel with hrel | ⟨hr, hcb⟩
+        · exact hrel
+        · exact absurd ⟨hr, by rw [hlast, hcb]⟩ hnot
+      rw [e1, e2]
+      refine ⟨by simp [hlen], ?_, ?_, .inr ⟨g.positions, g.stamps, _, _, rfl, rfl, Nat.le_refl _,
+        uniq_of_reach H' R' hreach _, .inl ⟨.inl (by rw [h]; simp [pcIter]), rfl⟩⟩⟩
+      · intro c hcm
+        simp only [List.mem_append, List.mem_singleton] at hcm
+        rcases hcm with hcm | hcm
+        · exact hbd c hcm
+        · rw [hcm]; exact hc
+      · rw [hp, hs] at hm ⊢
+        exact MonoF_snoc b L _ _ hrel' ps0 ss0 hl0 hm
   · rw [g.onStep_stay it th r (by rw [h]; rfl)]
     exact ⟨hlen, hbd, hm, .inr ⟨ps0, ss0, b, L, hp, hs, hL, hu, .inr (.inl ⟨h, hc, hrel⟩)⟩⟩
 
@@ -299,15 +357,17 @@ theorem MonoInv.arrive_seek {g : Ghost} {it : Nat} {th : Thread} {r : Res}
     (H' : HInv r.1.heap) (R' : ReachInv r.1.heap)
     (hc : (r.2.1.iter it).curr < r.1.heap.length) (hreach : Reach r.1.heap 0 (r.2.1.iter it).curr)
     (hpc : r.2.1.pc = .idle) : MonoInv r.1.heap (g.onStep it th r) it r.2.1 := by
-  have hg : g.onStep it th r =
-      { g with positions := g.positions ++ [(r.2.1.iter it).curr], stamps := g.stamps ++ [r.1.heap.length],
-               returns := g.returns + 1 } := by
-    unfold Ghost.onStep
-    rw [if_pos ⟨hown, by rw [hpc]; rfl⟩]
   have hs : g.stamps = [] := by
     rw [hp] at hlen
     exact List.eq_nil_of_length_eq_zero hlen.symm
-  rw [hg, hp, hs]
+  obtain ⟨_, _, _, _, hpos⟩ := g.onStep_ret it th r hown (by rw [hpc]; rfl)
+  have hpos' : (g.onStep it th r).positions = [(r.2.1.iter it).curr] ∧
+      (g.onStep it th r).stamps = [r.1.heap.length] := by
+    rcases hpos with ⟨_, _, _, hl⟩ | ⟨e1, e2, _⟩
+    · rw [hp] at hl; simp at hl
+    · rw [e1, e2, hp, hs]; exact ⟨rfl, rfl⟩
+  unfold MonoInv
+  rw [hpos'.1, hpos'.2]
   refine ⟨rfl, ?_, by simp [MonoF], .inr ⟨[], [], _, _, rfl, rfl, Nat.le_refl _,
     uniq_of_reach H' R' hreach _, .inl ⟨.inl (by rw [hpc]; simp [pcIter]), rfl⟩⟩⟩
   intro c hcm
@@ -433,7 +493,13 @@ theorem mono_step_own {sh : Shared} {th : Thread} {g : Ghost} {it : Nat} {ev : E
           · rw [hpc] at h; simp at h
         · rw [hpc] at hpc'; simp at hpc'
         · rw [hpc] at hf1; simp [searchOf] at hf1; subst hf1
-          have hrel := rel_of_search_end H' hrk hu hge hlive'
+          have hrel : Rel (stepThread sh th).1.heap b L ((stepThread sh th).2.1.iter it).curr ∨
+              (g.refreshing = true ∧ ((stepThread sh th).2.1.iter it).curr = b) := by
+            rcases hrk with hrk | ⟨hr, hkb⟩
+            · exact .inl (rel_of_search_end H' hrk hu hge hlive')
+            · rcases rel_or_same_of_search_end H' R' (mem_snoc_lt hp hbd) hkb hu hge hlive' with h | h
+              · exact .inl h
+              · exact .inr ⟨hr, h⟩
           rcases e3 with h | ⟨hcont, h | ⟨h, hsame⟩⟩
           · exact MonoInv.arrive hown0 hlen hbd hm hp hs' hL hu H' R' hc'' (areach (.inl h)) hrel (.inl h)
           · exact MonoInv.arrive hown0 hlen hbd hm hp hs' hL hu H' R' hc'' (areach (.inr h)) hrel (.inr h)
@@ -460,7 +526,7 @@ theorem mono_step_own {sh : Shared} {th : Thread} {g : Ghost} {it : Nat} {ev : E
     · have hst' := hst.trans (stepIterNext_unmarked hmk)
       obtain ⟨h1, h2, h3⟩ := afterNext_move sh th it' (th.iter it').curr (getNext sh.heap (th.iter it').curr 0).1
       rw [← hst'] at h1 h2 h3
-      refine MonoInv.arrive hown0 hlen hbd hm hp hs' hL hu H' R' hc'' (areach h3) ?_ h3
+      refine MonoInv.arrive hown0 hlen hbd hm hp hs' hL hu H' R' hc'' (areach h3) (.inl ?_) h3
       obtain ⟨p, m, hw⟩ := iterNext_word H hT hpc
       rw [h2, h1, getNext_of_word hw, ← hcur]
       exact .inl (H.h5 _ _ _ hw)
@@ -480,7 +546,7 @@ theorem mono_step_own {sh : Shared} {th : Thread} {g : Ghost} {it : Nat} {ev : E
           (dcas sh.heap (th.iter it').prev 0 (th.iter it').curr next false).2 0 (th.iter it').curr)
         th it' (th.iter it').prev next
       rw [← hst'] at h2 h3
-      refine MonoInv.arrive hown0 hlen hbd hm hp hs' hL hu H' R' hc'' (areach h3) ?_ h3
+      refine MonoInv.arrive hown0 hlen hbd hm hp hs' hL hu H' R' hc'' (areach h3) (.inl ?_) h3
       rw [h2, ← hcur]
       exact .inl (H'.h5 _ _ _ (e.marked _ _ _ hw))
     · obtain ⟨hh, fp, hth, hcont, _, hitem⟩ :=
@@ -489,7 +555,7 @@ theorem mono_step_own {sh : Shared} {th : Thread} {g : Ghost} {it : Nat} {ev : E
       rw [g.onStep_stay it' th _ (by rw [hth]; rfl)]
       refine ⟨hlen, hbd, hm, .inr ⟨ps0, ss0, b, L, hp, hs', hL, hu,
         .inr (.inr ⟨fp, by rw [hth]; rfl, .inl hcont, ?_, fun _ => by rw [hth]; exact hcur⟩)⟩⟩
-      refine .inr ⟨?_, ?_⟩
+      refine .inl (.inr ⟨?_, ?_⟩)
       · rw [hh, hitem, ← hcur, hk]; rfl
       · rw [hh, ← hcur]; exact ⟨next, hw⟩
   · -- ITER_REFRESH
@@ -513,16 +579,30 @@ theorem mono_step_own {sh : Shared} {th : Thread} {g : Ghost} {it : Nat} {ev : E
       · refine .inr (.inr ⟨_, by rw [hst]; rfl, .inr rfl, ?_, fun hc => ?_⟩)
         · have hheap : (stepThread sh th).1.heap = sh.heap := by rw [hst]; rfl
           rw [hheap] at hrel ⊢
-          show RelK sh.heap b (itemOfKey (keyOf sh.heap (th.iter it').curr))
+          show RelK sh.heap b (itemOfKey (keyOf sh.heap (th.iter it').curr)) ∨
+            (g.refreshing = true ∧ keyOf sh.heap b = .fin (itemOfKey (keyOf sh.heap (th.iter it').curr)))
           rw [hk]
-          show RelK sh.heap b k
-          unfold Rel at hrel
-          rw [hk] at hrel
-          rcases hrel with r | ⟨r1, r2, _⟩
-          · exact .inl r
-          · exact .inr ⟨r1, r2⟩
+          show RelK sh.heap b k ∨ (g.refreshing = true ∧ keyOf sh.heap b = .fin k)
+          rcases hrel with hrel | ⟨hr, hcb⟩
+          · unfold Rel at hrel
+            rw [hk] at hrel
+            rcases hrel with r | ⟨r1, r2, _⟩
+            · exact .inl (.inl r)
+            · exact .inl (.inr ⟨r1, r2⟩)
+          · exact .inr ⟨hr, by rw [← hcb]; exact hk⟩
         · simp at hc
       · rw [hpc] at hf; simp [searchOf] at hf
+
+/-- the entry of an explicit refresh: accepted (parked at ITER_REFRESH, nothing else changed) or refused -/
+theorem startOp_itRefresh_cases (sh : Shared) (th : Thread) (it : Nat) :
+    startOp sh th (.itRefresh it) = (sh, { th with pc := .iterRefresh it }, "at ITER_REFRESH") ∨
+    startOp sh th (.itRefresh it) = (sh, th, "bad-op") := by
+  simp only [startOp]
+  split
+  · split
+    · exact .inl rfl
+    · exact .inr rfl
+  · exact .inr rfl
 
 theorem mono_start_own {sh : Shared} {th : Thread} {g : Ghost} {it : Nat} (H : HInv sh.heap)
     (R : ReachInv sh.heap) (hidle : th.pc = .idle) (op : Op) (hT' : TInv sh.heap (startOp sh th op).2.1)
@@ -636,6 +716,24 @@ theorem mono_start_own {sh : Shared} {th : Thread} {g : Ghost} {it : Nat} (H : H
       · exact same _ (.inl hid) rfl hact
     · refine other ?_ rfl
       simp [opIter]; exact hi
+  | itRefresh it' =>
+    by_cases hi : it' = it
+    · subst hi
+      intro hact
+      simp only [Ghost.onStart, if_true] at hact ⊢
+      obtain ⟨hlen, hbd, hm, ps0, ss0, b, L, hp0, hs', hL, hu, hc⟩ := rest hact
+      have hlt : ((startOp sh th (.itRefresh it')).2.1.iter it').curr < sh.heap.length :=
+        (hT'.2.1.iter H.len it').2
+      rcases startOp_itRefresh_cases sh th it' with hst | hst
+      · -- accepted: parked at ITER_REFRESH with the cursor on the last position
+        rw [hst] at hlt ⊢
+        exact ⟨hlen, hbd, hm, .inr ⟨ps0, ss0, b, L, hp0, hs', hL, hu, .inr (.inl ⟨rfl, hlt, .inr ⟨rfl, hc⟩⟩)⟩⟩
+      · -- refused: nothing happens
+        rw [hst]
+        exact ⟨hlen, hbd, hm, .inr ⟨ps0, ss0, b, L, hp0, hs', hL, hu, .inl ⟨.inl hid, hc⟩⟩⟩
+    · refine other ?_ ?_
+      · simp [opIter]; exact hi
+      · simp only [Ghost.onStart, if_neg hi]
 
 abbrev MonoSys := SysP MonoInv
 
@@ -649,117 +747,5 @@ theorem actG_mono {t it : Nat} {s : Sys} {g : Ghost} (hI : InvS s) (b : MonoSys 
 theorem runG_mono {t it : Nat} {s : Sys} {g : Ghost} (hI : InvS s) (b : MonoSys t it s g) (as : List Action) :
     InvS (Sys.runG t it (s, g) as).1 ∧ MonoSys t it (Sys.runG t it (s, g) as).1 (Sys.runG t it (s, g) as).2 :=
   runG_pred (P := MonoInv) actG_mono hI b as
-
-/-! ### every returned position is on the chain in the state of the return -/
-
-theorem ghostAct_start_none {t it : Nat} {s : Sys} {g : Ghost} {t' : Nat} {op : Op} (h : s.threads[t']? = none) :
-    ghostAct t it s g (.start t' op) = g := by
-  simp [ghostAct, h]
-
-theorem ghostAct_start_some {t it : Nat} {s : Sys} {g : Ghost} {t' : Nat} {op : Op} {th : Thread}
-    (h : s.threads[t']? = some th) :
-    ghostAct t it s g (.start t' op) = if t' = t ∧ isIdle th.pc = true then g.onStart it s.sh th op else g := by
-  simp [ghostAct, h]
-
-theorem ghostAct_step_none {t it : Nat} {s : Sys} {g : Ghost} {t' : Nat} (h : s.threads[t']? = none) :
-    ghostAct t it s g (.step t') = g := by
-  simp [ghostAct, h]
-
-theorem ghostAct_step_some {t it : Nat} {s : Sys} {g : Ghost} {t' : Nat} {th : Thread}
-    (h : s.threads[t']? = some th) :
-    ghostAct t it s g (.step t') = if t' = t then g.onStep it th (stepThread s.sh th) else g := by
-  simp [ghostAct, h]
-
-/-- an action that makes a call of the scan return a position (`returns` grows): the position recorded is a
-    published node that is ON THE LEVEL-0 CHAIN FROM THE HEAD in the state of the return; if the returning segment
-    was the end of a findPath (Seek, the re-search of Next, the Seek of Refresh) it is the tail or unmarked -/
-theorem actG_return_reach {t it : Nat} {s : Sys} {g : Ghost} (hI : InvS s) (a : Action)
-    (hr : (ghostAct t it s g a).returns = g.returns + 1) :
-    ∃ c ps0, (ghostAct t it s g a).positions = ps0 ++ [c] ∧ c < (s.act a).sh.heap.length ∧
-      Reach (s.act a).sh.heap 0 c ∧
-      (∀ th, s.threads[t]? = some th → (searchOf th.pc).isSome → c = 1 ∨ unmarked0 (s.act a).sh.heap c) := by
-  have hI' := act_invS hI a
-  cases a with
-  | start t' op =>
-    simp only [Sys.act] at hI' ⊢
-    cases hth : s.threads[t']? with
-    | none => rw [ghostAct_start_none hth] at hr; omega
-    | some th =>
-      rw [ghostAct_start_some hth] at hr ⊢
-      by_cases hc : t' = t ∧ isIdle th.pc = true
-      · rw [if_pos hc] at hr ⊢
-        obtain ⟨htt, hidle⟩ := hc
-        subst htt
-        have hidle' := (isIdle_iff _).mp hidle
-        rw [Sys.start_idle hth hidle] at hI' ⊢
-        have hT' : TInv s.sh.heap (startOp s.sh th op).2.1 := by
-          have := hI'.1.1.2 _ (List.mem_of_getElem? (getElem?_set_self' (x := (startOp s.sh th op).2.1) hth))
-          simp only [] at this
-          rw [startOp_heap] at this
-          exact this
-        simp only []
-        rw [startOp_heap]
-        have H := hI.1.1.1
-        cases op with
-        | itFirst it' =>
-          by_cases hi : it' = it
-          · subst hi
-            simp only [Ghost.onStart, if_true]
-            have hcur : ((startOp s.sh th (.itFirst it')).2.1.iter it').curr = (getNext s.sh.heap headId 0).1 := by
-              simp only [startOp]
-              rw [moveIter_iter]
-            refine ⟨_, [], rfl, (hT'.2.1.iter H.len it').2, ?_, ?_⟩
-            · rw [hcur]
-              obtain ⟨⟨p, m⟩, hw⟩ := Option.isSome_iff_exists.mp (H.word0 0 (by have := H.len; omega) (by omega))
-              show Reach s.sh.heap 0 (getNext s.sh.heap 0 0).1
-              rw [getNext_of_word hw]
-              exact .single hw
-            · intro th0 h0 hsr
-              rw [hth] at h0
-              simp at h0
-              rw [← h0, hidle'] at hsr
-              simp [searchOf] at hsr
-          · simp only [Ghost.onStart, if_neg hi] at hr
-            omega
-        | itSeek it' x =>
-          simp only [Ghost.onStart] at hr
-          split at hr <;> simp at hr
-        | itClose it' =>
-          simp only [Ghost.onStart] at hr
-          split at hr <;> simp at hr
-        | ins k l => simp [Ghost.onStart] at hr
-        | del k => simp [Ghost.onStart] at hr
-        | look k => simp [Ghost.onStart] at hr
-        | itNext it' => simp [Ghost.onStart] at hr
-        | itInterval it' n => simp [Ghost.onStart] at hr
-      · rw [if_neg hc] at hr; omega
-  | step t' =>
-    simp only [Sys.act] at hI' ⊢
-    cases hth : s.threads[t']? with
-    | none => rw [ghostAct_step_none hth] at hr; omega
-    | some th =>
-      rw [ghostAct_step_some hth] at hr ⊢
-      by_cases htt : t' = t
-      · rw [if_pos htt] at hr ⊢
-        subst htt
-        unfold Ghost.onStep at hr ⊢
-        by_cases hc : pcIter th.pc = some it ∧ isIdle (stepThread s.sh th).2.1.pc = true
-        · rw [if_pos hc] at hr ⊢
-          obtain ⟨hown, hidle⟩ := hc
-          have hne : th.pc ≠ .idle := by
-            intro e; rw [e] at hown; simp [pcIter] at hown
-          rw [Sys.step_busy hth hne] at hI' ⊢
-          have hT := hI.1.1.2 th (List.mem_of_getElem? hth)
-          have hT' : TInv (stepThread s.sh th).1.heap (stepThread s.sh th).2.1 :=
-            hI'.1.1.2 _ (List.mem_of_getElem? (getElem?_set_self' (x := (stepThread s.sh th).2.1) hth))
-          obtain ⟨h1, h2⟩ := arrive_reach hI.1.1.1 hI.1.2 hT hI'.1.2 hown (.inl ((isIdle_iff _).mp hidle))
-          refine ⟨_, g.positions, rfl, (hT'.2.1.iter hI'.1.1.1.len it).2, h1, ?_⟩
-          intro th0 h0 hsr
-          rw [hth] at h0
-          simp at h0
-          rw [← h0] at hsr
-          exact h2 hsr
-        · rw [if_neg hc] at hr; omega
-      · rw [if_neg htt] at hr; omega
 
 end NitroVerif.SkipConc
